@@ -20,7 +20,9 @@ from ..srcmodel import walk_no_nested
 
 # filters / tests / utils belong to the compile path too: a filter or test applied to constant
 # operands is evaluated by the optimizer and the repr() of its result is written into the source
-MODULES = ("lexer", "parser", "nodes", "idtracking", "optimizer", "compiler", "ext", "meta", "visitor", "filters", "tests", "utils")
+# environment: extension loading / iteration order decides the order of preprocess and
+# filter_stream hooks, i.e. the token stream the parser sees
+MODULES = ("lexer", "parser", "nodes", "idtracking", "optimizer", "compiler", "ext", "meta", "visitor", "filters", "tests", "utils", "environment")
 SET_CTORS = ("set", "frozenset")
 # reviewed order-insensitive iterations over sets: (module, function, iterable) -> why
 ORDER_FREE = {
